@@ -1464,9 +1464,11 @@ impl Machine {
                 self.shared.depth_hist[hist.len().min(31)].fetch_add(1, std::sync::atomic::Ordering::Relaxed);
                 {
                     let n = self.shared.executed.load(std::sync::atomic::Ordering::Relaxed);
-                    if n.is_power_of_two() || n % 1_000_003 == 0 {
+                    // a few early histories, then one whenever a new depth is first reached
+                    let first_at_depth = self.shared.depth_hist[hist.len().min(31)].load(std::sync::atomic::Ordering::Relaxed) == 1;
+                    if (n.is_power_of_two() && n < 64) || first_at_depth || n % 5_000_011 == 0 {
                         let mut s = self.shared.samples.lock().unwrap();
-                        if s.len() < 10 {
+                        if s.len() < 16 {
                             s.push(fmt_hist(&self.cfg, &hist));
                         }
                     }
@@ -1548,7 +1550,7 @@ pub fn run_machine(opts: &Opts, cfg: MCfg, total: &mut Local) -> MachineRun {
         }
     }
     for s in shared.samples.lock().unwrap().iter() {
-        if total.samples.len() < 12 {
+        if total.samples.len() < 40 {
             total.samples.push(s.clone());
         }
     }
